@@ -78,7 +78,16 @@ pub fn params_for(prop: &str, r: &mut Rng, thorough: bool) -> Params {
             p.probers = 3;
             p.maintenance = true;
             p.manual_background = true;
+            p.split_maintenance = true;
+            p.long_probe_us = *r.pick(&[500, 3000, 10000]);
+            p.max_delay_us = *r.pick(&[200, 1000, 3000]);
             p.delay_pct = *r.pick(&[30, 60]);
+            // commits run at full speed while begins, flushes and compaction rounds are stretched
+            if r.chance(2, 3) {
+                p.delay_prefixes = vec!["compact.", "txn.begin."];
+                p.max_delay_us = *r.pick(&[1000, 3000, 8000]);
+            }
+            p.txns_per_committer = if thorough { r.range(100, 400) as usize } else { r.range(60, 160) as usize };
         }
     }
     p
